@@ -137,9 +137,28 @@ def install(ip, units):
         d = args[0]
         if not (isinstance(d, Obj) and d.cls == 'fmt'):
             raise Unsupported('define() of something that is not a formatted literal', node)
-        m = re.match(TEMPLATE_RE, d.attrs['template'])
-        if not m or len(d.attrs['args']) != 2:
+        # string arguments are rendered into the template first ('{} = {} {} = {}'.format(name, value, unit, alias) is the
+        # same definition as 'name = {} {} = alias'.format(value, unit)); the remaining placeholders are the value and unit
+        template, fargs = d.attrs['template'], list(d.attrs['args'])
+        fields = list(re.finditer(r'\{([^{}]*)\}', template))
+        if len(fields) == len(fargs) and len(fargs) > 2:
+            keep, out, pos = [], '', 0
+            for i, (fm, a) in enumerate(zip(fields, fargs)):
+                out += template[pos:fm.start()]
+                pos = fm.end()
+                first_or_last_name = isinstance(a, Const) and isinstance(a.v, str) and re.match(r'^\w+$', a.v) and \
+                    fm.group(1) == '' and (not template[:fm.start()].strip() or not template[fm.end():].strip())
+                if first_or_last_name:
+                    out += a.v
+                else:
+                    out += fm.group(0)
+                    keep.append(a)
+            out += template[pos:]
+            template, fargs = out, keep
+        m = re.match(TEMPLATE_RE, template)
+        if not m or len(fargs) != 2:
             raise Unsupported('unit definition template %r is not "name = {} {} = alias"' % d.attrs['template'], node)
+        d = Obj('fmt', {'template': template, 'args': fargs})
         spec = m.group(2)
         if not _lossless_spec(spec):
             # str.format('{}') of a float round-trips through pint's parser; a precision-limited spec does not
@@ -554,41 +573,38 @@ def rule_registry_isolation(ctx, rule='R17.r'):
 
 
 def rule_unit_literals(ctx, rule='R17.u'):
-    """every unit string literal in the module exists in the pinned pint registry (or is defined by the class)"""
-    mod = ctx.prog.module('pyPRISM.util.UnitConverter')
+    """every unit string the converter hands to pint -- in the constructor and in each conversion method, for both kinds of
+    characteristic energy -- exists in the pinned registry or is defined by the class itself.  The strings are collected
+    while the methods are executed abstractly (wherever they are spelled: literals, module constants, helper arguments)."""
     cls = ctx.prog.cls(UC)
-    units = Units()
-    own = set()
-    lits = []
-    for n in ast.walk(mod.tree):
-        if isinstance(n, ast.Call):
-            f = n.func
-            name = f.attr if isinstance(f, ast.Attribute) else None
-            tgt = ast.unparse(f)
-            if name == 'to' and n.args and isinstance(n.args[0], ast.Constant) and isinstance(n.args[0].value, str):
-                lits.append((n.args[0].value, n.lineno, '.to'))
-            elif tgt == 'self.pint' and n.args and isinstance(n.args[0], ast.Constant) and isinstance(n.args[0].value, str):
-                lits.append((n.args[0].value, n.lineno, 'self.pint'))
-            elif tgt == 'self.pint.Quantity' and len(n.args) == 2 and isinstance(n.args[1], ast.Constant):
-                lits.append((n.args[1].value, n.lineno, 'Quantity'))
-        if isinstance(n, ast.Constant) and isinstance(n.value, str):
-            mm = re.match(TEMPLATE_RE, n.value)
-            if mm:
-                own |= {mm.group(1), mm.group(4)}
-    init = cls.find_method('__init__')
-    for d in init.node.args.defaults:
-        if isinstance(d, ast.Constant) and isinstance(d.value, str):
-            lits.append((d.value, d.lineno, 'default'))
-    nn = 0
-    for s, line, use in lits:
-        nn += 1
-        if s in own:
-            ctx.holds(rule, UC, '%r (%s, line %d) is defined by the class' % (s, use, line), nontrivial=False, key=s)
-            continue
-        try:
-            units.parse(s)
-            ctx.holds(rule, UC, '%r (%s, line %d) exists in the pint registry' % (s, use, line), nontrivial=False, key=s)
-        except Raised as e:
-            ctx.violation(rule, UC, 'literal:' + s, 'unit literal %r (%s, line %d) is not defined in the pinned pint registry: %s'
-                          % (s, use, line, e.msg), '%s:%d' % (mod.relpath, line))
-    ctx.floor(rule, nn, 14, 'unit string literals')
+    seen = {}
+    problems = []
+    for ec_unit in ('kilojoule/mole', 'kilojoule'):
+        for meth in METHODS:
+            if cls.find_method(meth) is None:
+                continue
+
+            def run(preset, meth=meth, ec_unit=ec_unit):
+                ip_, units_, o_ = make_converter(ctx.prog, ec_unit)
+                ip_.preset = list(preset)
+                ip_.declare('x')
+                ip_.declare('diam')
+                args_ = [Num(N.sym('x'))] + ([Num(N.sym('diam'))] if meth == 'toVolumeFraction' else [])
+                try:
+                    ip_.call(ip_.find_method(o_, meth), args_, {})
+                finally:
+                    for k_, x_ in ip_.notes:
+                        if k_ == 'unit-literal':
+                            seen.setdefault(x_['s'], (x_['loc'], x_['use']))
+                return ip_, None
+            try:
+                for d_, i_, r_ in explore(run, keep_raised=True):
+                    if i_ is None and r_.exc in ('UndefinedUnitError', 'DefinitionSyntaxError'):
+                        problems.append('%s (ec in %s): %s: %s' % (meth, ec_unit, r_.exc, (r_.msg or '')[:120]))
+            except Unsupported:
+                pass            # reported by R17.d
+    for s_ in sorted(seen):
+        ctx.holds(rule, UC, '%r (%s, %s) is known to the registry of the converter' % (s_, seen[s_][1], seen[s_][0]), nontrivial=False, key=s_)
+    for pr in sorted(set(problems)):
+        ctx.violation(rule, UC, 'literal:' + pr.split(':')[0], 'a unit string is not defined: %s' % pr)
+    ctx.floor(rule, len(seen), 8, 'distinct unit strings handed to pint')
